@@ -93,6 +93,11 @@ func ppValue(r *hx.Rng, base float64, unit string) string {
 		return strconv.FormatFloat(v, 'e', 3, 64)
 	case 5:
 		return fmt.Sprintf("%d", int(base))
+	case 6:
+		// values that are not positive finite numbers: the summary row's warnings, "?" deltas, NaN in a compared cell
+		if r.Chance(0.35) {
+			return r.Pick([]string{"NaN", "+Inf", "-Inf", "-3", "inf", "0", "1e300", "-2.5"})
+		}
 	}
 	if unit == "allocs/op" || unit == "B/op" {
 		return fmt.Sprintf("%d", int(base/10)+r.Intn(3))
@@ -315,6 +320,7 @@ func ppGenInput(r *hx.Rng) (ppInput, string) {
 type ppCsvCell struct {
 	row, col int
 	centre   float64
+	delta    string // the "vs base" field; "" = absent
 }
 type ppCsvTable struct {
 	hdr    []string
@@ -323,6 +329,7 @@ type ppCsvTable struct {
 	rows   []string
 	cells  []ppCsvCell
 	sumrow string
+	ratios []string // per column: the summary row's "vs base" field ("" = absent)
 }
 
 func ppStartCol(exp int) int {
@@ -388,9 +395,21 @@ func ppParseCSV(out string) (tabs []ppCsvTable, ok bool) {
 					if err != nil {
 						return nil, false
 					}
-					t.cells = append(t.cells, ppCsvCell{ri, c, v})
+					d := ""
+					if c > 0 && sc+2 < len(rec) {
+						d = rec[sc+2]
+					}
+					t.cells = append(t.cells, ppCsvCell{ri, c, v, d})
 				}
 			}
+		}
+		last := recs[len(recs)-1]
+		for c := 0; c < ncols; c++ {
+			q := ""
+			if sc := ppStartCol(c); c > 0 && sc+2 < len(last) {
+				q = last[sc+2]
+			}
+			t.ratios = append(t.ratios, q)
 		}
 		tabs = append(tabs, t)
 	}
@@ -502,6 +521,11 @@ func ppCase(o *hx.Out, exe, dir string, in ppInput, kind string) error {
 		return err
 	}
 	bin := bsInput{Files: in.Files, Flags: in.Flags.args()}
+	if c14Hangs(exe, dir, bin) {
+		o.Count("pipe:hang")
+		o.Add(hx.L(hx.I(8)), in, "pipe:"+fmt.Sprint(in), true, "pipeline")
+		return nil
+	}
 	csvOut, _, _ := runBinary(exe, dir, bin, "csv", nil)
 	textOut, textErr, _ := runBinary(exe, dir, bin, "text", nil)
 	status, which, synerrs := ppStatus(textErr)
@@ -546,6 +570,8 @@ func ppCase(o *hx.Out, exe, dir string, in ppInput, kind string) error {
 	run := runBenchstatInProc(dir, bsInput{Files: in.Files}, bsFlags{table: fl.Table, row: fl.Row, col: fl.Col,
 		ignore: fl.Ignore, filter: fl.Filter, alpha: -1, confidence: -1, literal: true})
 	var tabsSx, statsSx []hx.Sx
+	statSx, sosumSx, socmpSx := hx.L(), hx.L(), hx.L()
+	var tags = []string{"pipeline"}
 	vals := map[string]bool{}
 	csvAgree, textAgree := true, true
 	ncells, nvary := 0, 0
@@ -646,6 +672,14 @@ func ppCase(o *hx.Out, exe, dir string, in ppInput, kind string) error {
 	if !csvOK {
 		csvAgree = false
 	}
+	if run.err == nil {
+		statSx, sosumSx, socmpSx = c14Stat(run, csvTabs)
+		if c14InfOrder(run) {
+			tags = append(tags, "C14_geomean_inf_order")
+			o.Count("pipe:inf-order")
+		}
+		c14CountClasses(o, run, "pipe:")
+	}
 	o.Count("pipe:" + kind)
 	o.Count(fmt.Sprintf("pipe:status=%d", status))
 	o.Count(fmt.Sprintf("pipe:tables=%d", min(len(tabsSx), 6)))
@@ -656,8 +690,8 @@ func ppCase(o *hx.Out, exe, dir string, in ppInput, kind string) error {
 	}
 	c := hx.L(hx.I(7), flagsSx, hx.List(filesSx), hx.List(reok), retab, pxOracle(vals),
 		hx.I(status), hx.I(which), hx.List(syn), hx.List(tabsSx), hx.List(statsSx), hx.List(csvSx),
-		hx.Bool(csvAgree), hx.Bool(textAgree))
-	o.Add(c, in, "pipe:"+fmt.Sprint(in), ncells >= 2, "pipeline")
+		hx.Bool(csvAgree), hx.Bool(textAgree), statSx, sosumSx, socmpSx)
+	o.Add(c, in, "pipe:"+fmt.Sprint(in), ncells >= 2, tags...)
 	return nil
 }
 
@@ -682,8 +716,10 @@ func genC14Pipeline(o *hx.Out, r *hx.Rng, tier string, exe string) error {
 			return err
 		}
 	}
-	// one input with an over-long line: the reader's I/O error ends the run
-	long := ppInput{Files: []bsFile{{Name: "f0.txt", Content: "goos: linux\nBenchmarkFib 1 1 ns/op\n" + strings.Repeat("x", 70000) + "\nBenchmarkFib 1 2 ns/op\n"}},
+	// one input with a long foreign line.  (Lines of 64 KiB and more are C02's business: since fix 260c688 the reader has
+	// no line limit, while the shared Model/Reader.v this pipeline model is composed from keeps the old limit - its
+	// theorems assume LinesShort; C02 judges long lines with Model/ReaderSpec.v.)
+	long := ppInput{Files: []bsFile{{Name: "f0.txt", Content: "goos: linux\nBenchmarkFib 1 1 ns/op\n" + strings.Repeat("x", 60000) + "\nBenchmarkFib 1 2 ns/op\n"}},
 		Flags: ppFlags{Filter: "*", Table: ".config", Row: ".fullname", Col: ".file"}}
 	return ppCase(o, exe, dir, long, "long-line")
 }
